@@ -222,7 +222,7 @@ func runR(input []byte, ops []rop) (string, []rstate) {
 }
 
 func genWop(g *Rng, fit bool) wop {
-	lens := []int{0, 0, 1, 2, 3, 5, 8, 16, 21, 32, 140, 255}
+	lens := []int{0, 0, 1, 2, 3, 5, 8, 16, 21, 32, 140, 255, 256, 257}
 	switch g.Intn(8) {
 	case 0:
 		return wop{kind: "n1", num: g.U64() & 0xff}
@@ -241,9 +241,16 @@ func genWop(g *Rng, fit bool) wop {
 		return wop{kind: "c", data: g.BytesNoNul(g.Pick(lens))}
 	default:
 		n := g.Pick(lens)
+		if g.Intn(6) == 0 {
+			// wide fields: paddings around 255/256/257 and beyond (where a padding helper's table ends)
+			n = g.Pick([]int{254, 255, 256, 257, 258, 300, 511, 512, 513, 1000, 4097})
+		}
 		l := n
 		if n > 0 {
 			l = g.Intn(n + 1)
+		}
+		if n >= 254 && g.Bool() {
+			l = g.Intn(4) // almost all of the field is padding
 		}
 		if g.Intn(4) == 0 {
 			l = n // exactly at width
